@@ -217,3 +217,174 @@ def declare(reg):
         is_async=True,
         props=["C05", "C01"],
     )
+
+    # ---- Authenticated.do_append (C02 d, C04 d): the message goes to append() with exactly the parsed flags and date; APPENDUID reports what append returned ----
+    reg.contract(
+        C, "Authenticated.do_append", params={"self": "ref:Authenticated", "cmd": "ref:IMAPClientCommand"}, ret="str",
+        requires={"from-parser": "cmd.mailbox_name == '' or safe_rel(rel_name(cmd.mailbox_name))", "has-server": "not is_none(self.server)"},
+        ensures={"appenduid": "exists(lambda m, u: result == '[APPENDUID ' + str(m.uid_vv) + ' ' + str(u) + ']' and u < m.next_uid and u >= 1, 'ref:Mailbox', 'int')"},
+        raises={"No": None, "Bad": None},
+        modifies=["self.pending_notifications", "ClientProxy.g_out", "*.pending_notifications", "IMAPClientCommand.completed",
+                  "Mailbox.last_resync", "Mailbox.mtime", "Mailbox.optional_resync", "Mailbox.msg_keys", "Mailbox.uids", "Mailbox.num_msgs", "Mailbox.num_recent", "Mailbox.sequences", "Mailbox.next_uid",
+                  "Mailbox._msg_key_to_idx", "Mailbox._uid_to_idx", "Mailbox.attributes", "MH.g_seqs", "MH.g_keys", "MH.g_content",
+                  "Mailbox.g_db_seqs", "Mailbox.g_db_exists", "Mailbox.g_db_uid_vv", "Mailbox.g_db_next_uid", "Mailbox.g_db_uids", "Mailbox.g_db_msg_keys", "Mailbox.g_db_subscribed", "Mailbox.g_db_num_msgs"],
+        ghost={"assume_pre_of": ["append"],
+               "call_asserts": {"append": {
+                   "stores-the-parsed-message": "arg_msg == cmd.message",
+                   "with-the-parsed-flags": "not is_none(arg_flags) and same(some(arg_flags), cmd.flag_list)",
+                   "and-the-parsed-date": "arg_date_time == cmd.date_time",
+               }}},
+        is_async=True,
+        props=["C02", "C04"],
+        note="the preconditions of Mailbox.append (environment assumption E1, folder and memory in step) are assumed at the call site",
+    )
+
+    # ---- Authenticated.do_status (C02 b, C12): STATUS reports the mailbox's own counters, one item per requested attribute, in order ----
+    def _item(att, text):
+        return f"implies(cmd.status_att_list[j] == StatusAtt.{att}, local('result')[j] == {text})"
+    ITEMS = " and ".join([
+        _item("MESSAGES", "'MESSAGES ' + str(local('mbox').num_msgs)"), _item("RECENT", "'RECENT ' + str(local('mbox').num_recent)"),
+        _item("UIDNEXT", "'UIDNEXT ' + str(local('mbox').next_uid)"), _item("UIDVALIDITY", "'UIDVALIDITY ' + str(local('mbox').uid_vv)"),
+        _item("UNSEEN", "'UNSEEN ' + str(card(get(local('mbox').sequences, 'unseen')))")])
+    ITEMS_INV = ITEMS.replace("local('result')", "result").replace("local('mbox')", "mbox")
+    reg.contract(
+        C, "Authenticated.do_status", params={"self": "ref:Authenticated", "cmd": "ref:IMAPClientCommand"},
+        requires={"from-parser": "cmd.mailbox_name == '' or safe_rel(rel_name(cmd.mailbox_name))", "has-server": "not is_none(self.server)"},
+        ensures={
+            "one-item-per-attribute": f"len(local('result')) == len(cmd.status_att_list) and forall(lambda j: implies(0 <= j and j < len(cmd.status_att_list), {ITEMS}))",
+            "status-line": "len(self.client.g_out) >= 1 and self.client.g_out[len(self.client.g_out) - 1] == '* STATUS ' + cquoted(cmd.mailbox_name) + ' (' + ' '.join(local('result')) + ')\\r\\n'",
+        },
+        raises={"No": None, "Bad": None, "NoSuchMailbox": None},
+        loops={0: {"invariant": {
+            "items-so-far": f"len(result) == _i and forall(lambda j: implies(0 <= j and j < _i, {ITEMS_INV}))",
+            "counters-untouched": "same(mbox.sequences, lpre(mbox.sequences)) or forall(lambda k: (k in get(mbox.sequences, 'unseen')) == (k in get(lpre(mbox.sequences), 'unseen')))",
+        }}},
+        locals_={"result": "list[str]"},
+        modifies=["self.pending_notifications", "ClientProxy.g_out", "Mailbox.sequences", "IMAPClientCommand.completed"],
+        is_async=True,
+        props=["C02", "C12"],
+    )
+
+    # ---- Authenticated.do_copy / do_move (C05, C10, C15): the parsed set, mailbox and UID-ness are what copy() gets; MOVE removes exactly what was copied ----
+    reg.contract(C, "Authenticated._format_copyuid", params={"self": "ref:Authenticated", "dest_mbox": "ref:Mailbox", "src_uids": "list[int]", "dst_uids": "list[int]"}, ret="str",
+                 trusted=True, note="string builder for the COPYUID response code (not under contract)")
+    COPY_ARGS = {
+        "copies-the-parsed-set": "not is_none(cmd.msg_set) and same(arg_msg_set, some(cmd.msg_set))",
+        "uid-form-as-parsed": "arg_uid_command == cmd.uid_command",
+        # the command itself is handed over, so that copy() can release the source mailbox before it queues on the destination (C10)
+        "hands-over-the-command": "not is_none(arg_imap_cmd) and some(arg_imap_cmd) == cmd",
+        "from-the-selected-mailbox": "not is_none(self.mbox) and arg_self == some(self.mbox)",
+    }
+    COMMON_MOD = ["self.pending_notifications", "self.idling", "ClientProxy.g_out", "*.pending_notifications", "IMAPClientCommand.completed", "IMAPClientCommand.command",
+                  "Mailbox.msg_keys", "Mailbox.uids", "Mailbox.num_msgs", "Mailbox.num_recent", "Mailbox._msg_key_to_idx", "Mailbox._uid_to_idx", "Mailbox.sequences",
+                  "Mailbox.optional_resync", "MH.g_keys", "MH.g_seqs", "Mailbox.g_db_seqs", "Mailbox.g_db_exists", "Mailbox.g_db_uid_vv", "Mailbox.g_db_next_uid", "Mailbox.g_db_uids",
+                  "Mailbox.g_db_msg_keys", "Mailbox.g_db_subscribed", "Mailbox.g_db_num_msgs"]
+    reg.contract(
+        C, "Authenticated.do_copy", params={"self": "ref:Authenticated", "cmd": "ref:IMAPClientCommand"}, ret="opt[str]",
+        requires={"from-parser": "cmd.mailbox_name == '' or safe_rel(rel_name(cmd.mailbox_name))", "has-server": "not is_none(self.server)",
+                  "parsed-set": "not is_none(cmd.msg_set)"},
+        raises={"No": None, "Bad": None, "MailboxInconsistency": None},
+        modifies=COMMON_MOD,
+        ghost={"assume_pre_of": ["copy"], "call_asserts": {"copy": COPY_ARGS}},
+        is_async=True,
+        props=["C05", "C10", "C15"],
+        note="Mailbox.copy's own preconditions (well-formed set: established by the parser's _p_msg_set contract; non-empty mailbox) are assumed at the call site",
+    )
+    reg.contract(
+        C, "Authenticated.do_move", params={"self": "ref:Authenticated", "cmd": "ref:IMAPClientCommand"}, ret="opt[str]",
+        requires={"from-parser": "cmd.mailbox_name == '' or safe_rel(rel_name(cmd.mailbox_name))", "has-server": "not is_none(self.server)",
+                  "parsed-set": "not is_none(cmd.msg_set)"},
+        ensures={"idling-restored": "self.idling == old(self.idling)"},
+        raises={"No": None, "Bad": None, "MailboxInconsistency": None},
+        exc_ensures={"idling-restored": "self.idling == old(self.idling)"},
+        modifies=COMMON_MOD,
+        ghost={"assume_pre_of": ["copy", "expunge"],
+               "call_asserts": {"copy": COPY_ARGS, "expunge": {
+                   # MOVE removes exactly the messages whose UIDs copy() reported as copied, whether or not they carry \\Deleted
+                   "removes-what-was-copied": "not is_none(arg_uid_msg_set) and forall(lambda u: (u in some(arg_uid_msg_set)) == exists(lambda j: 0 <= j and j < len(src_uids) and (not is_none(src_uids[j])) and some(src_uids[j]) == u))",
+                   "regardless-of-deleted": "not arg_check_deleted",
+                   "on-the-source-mailbox": "not is_none(self.mbox) and arg_self == some(self.mbox)",
+               }}},
+        is_async=True,
+        props=["C05", "C10"],
+        note="read-only selection refused; the preconditions of copy() and expunge() are assumed at the call sites",
+    )
+
+    # ---- the synchronisation points (C01): NOOP, IDLE and DONE deliver everything that is queued, in order, and leave the queue empty ----
+    OUTB = "self.client.g_out"
+    reg.contract(
+        C, "BaseClientHandler.do_noop", params={"self": "ref:BaseClientHandler", "cmd": "ref:IMAPClientCommand"},
+        ensures={"flushed-when-selected": f"implies(not is_none(self.mbox), appended({OUTB}, old({OUTB}), old({PN})) and len({PN}) == 0)",
+                 "nothing-otherwise": f"implies(is_none(self.mbox), same({OUTB}, old({OUTB})) and same({PN}, old({PN})))"},
+        raises={"No": None, "Bad": None},
+        exc_ensures={"refused-sends-nothing": f"same({OUTB}, old({OUTB})) and same({PN}, old({PN}))"},
+        modifies=["self.pending_notifications", "ClientProxy.g_out"],
+        is_async=True, props=["C01"],
+    )
+    reg.contract(
+        C, "BaseClientHandler.do_idle", params={"self": "ref:BaseClientHandler", "cmd": "ref:IMAPClientCommand"}, ret="bool",
+        ensures={
+            "continuation-then-queue": f"len({OUTB}) == len(old({OUTB})) + 1 + len(old({PN})) and {OUTB}[len(old({OUTB}))] == '+ idling\\r\\n' and "
+                                       f"forall(lambda i: implies(0 <= i and i < len(old({PN})), {OUTB}[len(old({OUTB})) + 1 + i] == old({PN})[i])) and "
+                                       f"forall(lambda i: implies(0 <= i and i < len(old({OUTB})), {OUTB}[i] == old({OUTB})[i]))",
+            "queue-empty-and-idling": f"len({PN}) == 0 and self.idling",
+            "reply-deferred": "result == False",
+        },
+        modifies=["self.pending_notifications", "self.idling", "ClientProxy.g_out"],
+        is_async=True, props=["C01", "C06"],
+    )
+    reg.contract(
+        C, "BaseClientHandler.do_done", params={"self": "ref:BaseClientHandler", "cmd": "opt[ref:IMAPClientCommand]"},
+        requires={"idle-was-tagged": "not is_none(self.tag)"},
+        ensures={
+            "one-line-after-the-queue": f"len({OUTB}) == len(old({OUTB})) + len(old({PN})) + 1",
+            "tagged-ok-last": f"{OUTB}[len({OUTB}) - 1] == some(self.tag) + ' OK IDLE terminated\\r\\n'",
+            "queue-in-order": f"forall(lambda i: implies(0 <= i and i < len(old({OUTB})) + len(old({PN})), {OUTB}[i] == ite(i < len(old({OUTB})), old({OUTB})[i], old({PN})[i - len(old({OUTB}))])))",
+            "queue-empty-not-idling": f"len({PN}) == 0 and not self.idling",
+        },
+        modifies=["self.pending_notifications", "self.idling", "ClientProxy.g_out"],
+        is_async=True, props=["C01", "C06"],
+    )
+    reg.contract(
+        C, "Authenticated.do_unselect", params={"self": "ref:Authenticated", "cmd": "ref:IMAPClientCommand"},
+        ensures={"deselected": f"self.state == ClientState.AUTHENTICATED and is_none(self.mbox) and len({PN}) == 0 and not self.idling",
+                 "unregistered": "implies(not is_none(old(self.mbox)), self.client.name not in some(old(self.mbox)).clients)"},
+        raises={"Bad": "self.state != ClientState.SELECTED"},
+        exc_ensures={"untouched": f"self.state == old(self.state) and same({PN}, old({PN}))"},
+        modifies=["self.pending_notifications", "self.idling", "self.state", "self.mbox", "self.select_while_selected_count", "Mailbox.clients"],
+        is_async=True, props=["C01"],
+    )
+
+    # ---- thin handlers: the parsed arguments are what the mailbox operation gets (C17, C09, C01) ---------------------------------
+    SUBS_MOD = ["self.pending_notifications", "ClientProxy.g_out", "Mailbox.subscribed", "Mailbox.sequences", "Mailbox.g_db_seqs", "Mailbox.g_db_exists", "Mailbox.g_db_uid_vv",
+                "Mailbox.g_db_next_uid", "Mailbox.g_db_uids", "Mailbox.g_db_msg_keys", "Mailbox.g_db_subscribed", "Mailbox.g_db_num_msgs"]
+    for fn, val in (("do_subscribe", "True"), ("do_unsubscribe", "False")):
+        reg.contract(
+            C, f"Authenticated.{fn}", params={"self": "ref:Authenticated", "cmd": "ref:IMAPClientCommand"},
+            requires={"from-parser": "cmd.mailbox_name == '' or safe_rel(rel_name(cmd.mailbox_name))", "has-server": "not is_none(self.server)"},
+            raises={"NoSuchMailbox": None},
+            ghost={"call_asserts": {"commit_to_db": {
+                # the subscription bit of the named mailbox is set and then committed
+                "bit-set-before-commit": f"arg_self.subscribed == {val}",
+            }}},
+            modifies=SUBS_MOD, is_async=True, props=["C17"],
+        )
+    reg.contract(
+        C, "Authenticated.do_examine", params={"self": "ref:Authenticated", "cmd": "ref:IMAPClientCommand"}, ret="opt[str]",
+        requires={"from-parser": "cmd.mailbox_name == '' or safe_rel(rel_name(cmd.mailbox_name))", "has-server": "not is_none(self.server)"},
+        raises={"No": None, "Bad": None, "NoSuchMailbox": None},
+        ghost={"call_asserts": {"do_select": {"read-only": "arg_examine and arg_cmd == cmd"}}},
+        modifies=["self.pending_notifications", "self.idling", "self.state", "self.mbox", "self.examine", "self.select_while_selected_count", "Mailbox.clients", "ClientProxy.g_out"],
+        is_async=True, props=["C05", "C01"],
+    )
+    for fn, callee, args in (("do_create", "create", {"name": "cmd.mailbox_name"}), ("do_delete", "delete", {"name": "cmd.mailbox_name"}),
+                             ("do_rename", "rename", {"old_name": "cmd.mailbox_src_name", "new_name": "cmd.mailbox_dst_name"})):
+        names = list(args.values())
+        reg.contract(
+            C, f"Authenticated.{fn}", params={"self": "ref:Authenticated", "cmd": "ref:IMAPClientCommand"},
+            requires={**{f"from-parser-{i}": f"{n} == '' or safe_rel(rel_name({n}))" for i, n in enumerate(names)}, "has-server": "not is_none(self.server)"},
+            raises={"No": None, "Bad": None, "NoSuchMailbox": None, "InvalidMailbox": None, "MailboxExists": None, "MailboxException": None},
+            ghost={"call_asserts": {callee: {f"operates-on-the-parsed-name-{p}": f"arg_{p} == {v}" for p, v in args.items()} | {"on-this-server": "arg_server == some(self.server)"}}},
+            modifies=["self.pending_notifications", "ClientProxy.g_out", "IMAPClientCommand.completed"],
+            is_async=True, props=["C17", "C09"],
+        )
